@@ -75,7 +75,9 @@ func NewClient(ch channel.Channel, opts *ClientOptions) *Client {
 // handle both. The caller must not hold c.mu.
 func (c *Client) accept(ch receiver) error {
 	var in jmessages
+	verifPoint("cli.accept.beforeRecv")
 	bits, err := ch.Recv()
+	verifPoint("cli.accept.afterRecv")
 	if err == nil {
 		err = in.parseJSON(bits)
 	}
@@ -90,9 +92,11 @@ func (c *Client) accept(ch receiver) error {
 	}
 
 	c.log("Received %d responses", len(in))
+	verifPoint("cli.accept.beforeSpawn")
 	c.done.Add(1)
 	go func() {
 		defer c.done.Done()
+		verifPoint("cli.deliver.start")
 		c.mu.Lock()
 		defer c.mu.Unlock()
 		for _, rsp := range in {
@@ -123,7 +127,9 @@ func (c *Client) handleRequestLocked(msg *jmessage) {
 		c.done.Add(1)
 		go func() {
 			defer c.done.Done()
+			verifPoint("cli.cb.start")
 			bits := c.scall(ctx, msg)
+			verifPoint("cli.cb.afterHandler")
 
 			c.mu.Lock()
 			defer c.mu.Unlock()
@@ -173,6 +179,7 @@ func (c *Client) req(ctx context.Context, method string, params any) (*jmessage,
 		return nil, err
 	}
 
+	verifPoint("cli.req.beforeLock")
 	c.mu.Lock()
 	defer c.mu.Unlock()
 	id := json.RawMessage(strconv.FormatInt(c.nextID, 10))
@@ -223,6 +230,7 @@ func (c *Client) send(ctx context.Context, reqs jmessages) ([]*Response, error) 
 			pctxs = append(pctxs, pctx)
 		}
 	}
+	verifPoint("cli.send.beforeLock")
 
 	c.mu.Lock()
 	defer c.mu.Unlock()
@@ -250,6 +258,7 @@ func (c *Client) send(ctx context.Context, reqs jmessages) ([]*Response, error) 
 // cancellation is a no-op ("too late").
 func (c *Client) waitComplete(pctx context.Context, id string, p *Response) {
 	<-pctx.Done()
+	verifPoint("cli.wait.afterDone")
 	cleanup := func() {}
 	c.mu.Lock()
 	defer func() {
@@ -280,6 +289,7 @@ func (c *Client) waitComplete(pctx context.Context, id string, p *Response) {
 	// If there is a cancellation hook, give it a chance to run.
 	if c.chook != nil {
 		cleanup = func() {
+			verifPoint("cli.wait.beforeHook")
 			p.wait() // ensure the response has settled
 			c.log("Calling OnCancel for id %q", id)
 			c.chook(c, p)
@@ -307,7 +317,9 @@ func (c *Client) Call(ctx context.Context, method string, params any) (*Response
 	if err != nil {
 		return nil, err
 	}
+	verifPoint("cli.call.beforeWait")
 	rsp[0].wait()
+	verifPoint("cli.call.afterWait")
 	if err := rsp[0].Error(); err != nil {
 		return nil, filterError(err)
 	}
@@ -378,9 +390,11 @@ func (c *Client) Notify(ctx context.Context, method string, params any) error {
 
 // Close shuts down the client, terminating any pending in-flight requests.
 func (c *Client) Close() error {
+	verifPoint("cli.close.beforeLock")
 	c.mu.Lock()
 	defer c.stopLocked(errClientStopped)()
 	c.mu.Unlock()
+	verifPoint("cli.close.beforeWait")
 	c.done.Wait()
 
 	// Don't remark on a closed channel or EOF as a noteworthy failure.
